@@ -734,7 +734,7 @@ def run(tier='quick', repo=None):
         '- logs included -, feeds its output or sets a flow definition on it is reachable; dead not thrown twice), R-gate (the output, flow '
         'definition and output-state fields managed by UPIPE_HELPER_OUTPUT are stored only by the helper, only X_output feeds the output, and '
         'inside the generated functions input is under case VALID, VALID is stored only under a successful set_flow_def, store_flow_def and '
-        'set_output reset the state to NONE). Does not decide run-time event order across pipes nor hand-written flow-definition caches.')
+        'set_output reset the state to NONE). Does not decide run-time event order across pipes, nor hand-written flow-definition caches other than the flag-guarded form of R-cache.')
     rep.rule('R-ready', 'alloc slot function: every return of the pipe variable is preceded on all paths by upipe_throw_ready(pipe), reachable once; no non-log event on the pipe before it (callees summarised)')
     rep.rule('R-dead', 'function calling upipe_throw_dead(p): no call reachable afterwards causes a probe event on p (log, throw) or feeds/sets flow def on p\'s OUTPUT; transitive through TU-local and helper-generated callees')
     rep.rule('R-gate-writer', 'fields bound to OUTPUT/FLOW_DEF/OUTPUT_STATE of a UPIPE_HELPER_OUTPUT instantiation are assigned only in functions generated by that helper (storing NULL into FLOW_DEF is allowed: it only makes X_output drop)')
